@@ -518,7 +518,15 @@ impl Simulation {
                         }
                         self.time.write(target_time);
                     }
-                    self.clock.synchronize(target_time);
+                    if let SyncStatus::OutOfSync(lag) = self.clock.synchronize(target_time) {
+                        if let Some(tolerance) = &self.clock_tolerance {
+                            if &lag > tolerance {
+                                self.is_terminated = true;
+
+                                return Err(ExecutionError::OutOfSync(lag));
+                            }
+                        }
+                    }
                     return Ok(());
                 }
                 Err(e) => return Err(e),
